@@ -24,7 +24,7 @@ EXTRACT = ["C18"]
 BINS = ["c18"]
 NEEDS_CICADA = True
 ALLOWED_AXIOMS = []
-PINNED = ["C18_full", "C18_insert_text", "C18_insert_appends", "C18_select_text", "C18_select_params", "C18_select_arity",
+PINNED = ["C18_order_partial", "C18_order_refuted", "C18_order_full", "C18_insert_keeps_order", "C18_full", "C18_insert_text", "C18_insert_appends", "C18_select_text", "C18_select_params", "C18_select_arity",
           "C18_row_matches", "C18_list_sound", "C18_list_complete", "C18_search_complete", "C18_delete_exact",
           "C18_delete_text", "C18_record_rule", "C18_record_sound", "C18_record_complete", "C18_record_independent",
           "C18_record_first", "C18_record_processes"]
@@ -43,7 +43,9 @@ TRUSTED = [
 ASSUMES = [
     "a fresh shell process starts with previous_cmd empty (Shell::new) and history::init does not change it: the repeat "
     "rule compares only with a line recorded by the same process (C18_record_independent / C18_record_first)",
-    "timestamps within one scenario are distinct (sqlite leaves the order of equal tsb unspecified)",
+    "rows with equal tsb: the model takes sqlite's sorter to be stable (ties in rowid order, also for DESC), which SQL "
+    "leaves unspecified; compared with python's sqlite3 and with the bundled one on every tie generated",
+    "the wall clock does not step backwards or stand still (at 240 ns resolution) between two lines submitted at the prompt",
     "no code point 0 in generated texts (argv and the line editor cannot deliver one)",
 ]
 
@@ -126,6 +128,9 @@ def gen_scenario(rng, root, l2=False):
     n = rng.randint(3, 9)
     ops = []
     ts_pool = rng.sample(range(1, 400), n + 2)
+    if rng.random() < 0.35:                      # ties: what several `history add` without -t produce (all 0)
+        k = rng.choice([0, 0, 7])
+        ts_pool = [k if rng.random() < 0.6 else t for t in ts_pool]
     texts = []
     for i in range(n):
         r = rng.random()
@@ -215,10 +220,18 @@ def intended_list(conn, o):
     if o["p"]:
         sql += " AND info like ?"
         par.append("%dir:" + o["dir"] + "|%")
-    sql += " ORDER BY tsb" if o["a"] else " order by tsb desc"
+    # the property's order: by time, and among equal times by submission (rowid)
+    sql += " ORDER BY tsb, rowid" if o["a"] else " order by tsb desc, rowid desc"
     sql += " limit %d " % o["limit"]
     rows = conn.execute(sql, par).fetchall()
     return rows if o["a"] else rows[::-1]
+
+
+def matched_ties(conn, o):
+    """do the rows selected by o (ignoring the limit) hold two equal tsb?"""
+    o2 = dict(o, limit=-1, a=True)
+    ts = [r[2] for r in intended_list(conn, o2)]
+    return len(set(ts)) < len(ts)
 
 
 def fmt_list(rows):
@@ -236,6 +249,14 @@ class Verdicts:
         self.nviol += 1
         if self.nviol <= 3:
             self.res.violate(layer=self.layer, ops=self.cur_ops, **kw)
+
+    def known_hit(self, cls, example, **kw):
+        k = [f for f in self.known if f.get("class") == cls]
+        if not k:
+            self.violate(kind="oracle", failing_input=True, input=example,
+                         note="defect of class %s reproduces but is not recorded in known_findings.txt" % cls, **kw)
+        else:
+            self.res.known(cls, "class=%s input=%s what=%s" % (cls, example, k[0].get("what", "")))
 
 
 def describe(o):
@@ -316,13 +337,28 @@ def check_scenario(V, ops, mouts, impl, shadow_path):
                 want = ("OK", fmt_list(intended_list(conn, o)))
                 im = (im[0], im[1] if im[0] == "OK" else "")
                 mtxt = ("OK", fmt_list([(r[0], r[1]) for r in mrows]))
-                if faithful != want or mtxt != want:
+                ties = matched_ties(conn, o)
+                if mtxt != faithful or (not ties and faithful != want):
                     V.violate(kind="correspondence", failing_input=False, function="select_stmt/db_list", input=hist[:],
-                              model=mtxt, sqlite_on_model_stmt=faithful, expected=want, sql=sql, params=params)
-                if im != want:
+                              model=mtxt, sqlite_on_model_stmt=faithful, expected=want, sql=sql, params=params, ties=ties)
+                if im != want and ties:
+                    # known class list-tie-order: rows with equal tsb (here always from `history add -t`)
+                    if im == faithful:
+                        V.known_hit("list-tie-order", "%s -> lists %r, submission order is %r" % (
+                            "; ".join(hist[-4:]), im[1].split("\n"), want[1].split("\n")))
+                        res.nontrivial("known-tie:" + im[1])
+                    else:
+                        V.violate(kind="oracle", failing_input=True, input=hist[:], expected=want, observed=im,
+                                  faithful_model=faithful, sql=sql,
+                                  note="inside known class list-tie-order, but neither the recorded wrong order nor submission order")
+                elif im != want:
                     V.violate(kind="oracle", failing_input=True, input=hist[:], expected=want, observed=im, sql=sql,
-                              note="listing differs from the rows selected by pattern / directory / session in tsb order "
-                                   "(or listing failed)")
+                              note="listing differs from the rows selected by pattern / directory / session in time "
+                                   "(= submission) order (or listing failed)")
+                elif ties and faithful != want:
+                    res.extra.setdefault("findings_no_longer_reproducing", [])
+                    if "list-tie-order" not in res.extra["findings_no_longer_reproducing"]:
+                        res.extra["findings_no_longer_reproducing"].append("list-tie-order")
                 elif want[1]:
                     res.nontrivial("list:" + o["pattern"] + "|" + want[1])
                 if "'" in o["pattern"] or (o["p"] and "'" in o["dir"]):
@@ -469,9 +505,11 @@ def layer2(ctx, res, V, work):
 
 
 # ------------------------------------------------------------------ L3: interactive sessions
-def pty_session(ctx, root, db, typed):
+def pty_session(ctx, root, db, typed, fast=False):
     """One interactive cicada process on a pty (120x24), cwd = root, database = db (shared with other
-    processes of the sequence); types the lines, then ` exit`. Waits for the prompt before every line."""
+    processes of the sequence); types the lines, then ` exit`. Waits for the prompt before every line;
+    with fast=True it goes on as soon as the prompt shows (no quiet period): the lines are submitted back to back,
+    many within one second."""
     import pty, select
     env = {"HOME": root, "XDG_CONFIG_HOME": root, "HISTORY_FILE": db, "PATH": "/usr/bin:/bin", "TERM": "xterm",
            "LANG": "C.UTF-8", "HISTORY_DELETE_DUPS": "0"}
@@ -482,7 +520,7 @@ def pty_session(ctx, root, db, typed):
         os.chdir(root)
         os.execve(ctx.cicada, ["cicada"], env)
 
-    def wait_prompt(limit=20.0):
+    def wait_prompt(limit=20.0, quiet=0.2):
         """read until a prompt (`$ `) has been printed and the terminal is quiet"""
         out = b""
         end = time.time() + limit
@@ -498,17 +536,19 @@ def pty_session(ctx, root, db, typed):
                     break
                 out += b
                 quiet_since = None
+                if quiet == 0 and b"$ " in out:
+                    return True
             else:
                 if b"$ " in out:
                     if quiet_since is None:
                         quiet_since = time.time()
-                    elif time.time() - quiet_since > 0.2:
+                    elif time.time() - quiet_since > quiet:
                         return True
         return False
     ok = wait_prompt()
     for t in typed:
         os.write(fd, t.encode() + b"\r")
-        ok = wait_prompt() and ok
+        ok = wait_prompt(quiet=0 if fast else 0.2) and ok
     os.write(fd, b" exit\r")
     for _ in range(200):
         try:
@@ -600,10 +640,15 @@ def describe_procs(procs):
     out = []
     for i, p in enumerate(procs):
         if p["k"] == "I":
-            out.append("process %d: interactive cicada on a pty, types %r then ` exit`" % (i + 1, p["typed"]))
+            out.append("process %d: interactive cicada on a pty, types %r%s then ` exit`" % (
+                i + 1, p["typed"], " back to back" if p.get("fast") else ""))
         else:
             out.append("process %d: cicada -c \"history add %s-- %s\"" % (i + 1, "-t <now> " if p["now"] else "", shq(p["line"])))
     return out
+
+
+LISTINGS = [("history -n -l 100", False, 100), ("history -n -a -l 100", True, 100), ("history -n -l 2", False, 2),
+            ("history -n -a -l 2", True, 2)]
 
 
 def run_sequence(ctx, work, ix, procs):
@@ -614,20 +659,35 @@ def run_sequence(ctx, work, ix, procs):
     ok = True
     for p in procs:
         if p["k"] == "I":
-            ok = pty_session(ctx, root, db, p["typed"]) and ok
+            ok = pty_session(ctx, root, db, p["typed"], fast=p.get("fast", False)) and ok
         else:
             ts = ("-t %.3f " % time.time()) if p["now"] else ""
             cic(ctx, "history add %s-- %s" % (ts, shq(p["line"])), root, db, root)
-    return ok, [r[1] for r in sorted(read_rows(db), key=lambda r: r[0])]
+    rows = sorted(read_rows(db), key=lambda r: r[0])
+    # what LATER shell processes see
+    lists = []
+    for cmd, _, _ in LISTINGS:
+        rc, out, err = cic(ctx, cmd, root, db, root)
+        lists.append(out[:-1].split("\n") if out.endswith("\n") else (out.split("\n") if out else []))
+    return ok, rows, lists
 
 
 def layer3(ctx, res, V, work):
     rng = ctx.rng
     n = 16 if ctx.thorough else 6
-    # fixed first sequence: the first line of process 3 equals the newest row by time (process 2's row has tsb 0)
+    # fixed sequences: (1) the first line of process 3 equals the newest row by time (process 2's row has tsb 0);
+    # (2) six lines submitted back to back in one session, then listed by later processes
     seqs = [[{"k": "I", "typed": ["echo one >/dev/null"]}, {"k": "A", "line": "echo two", "now": False},
-             {"k": "I", "typed": ["echo one >/dev/null", "echo one >/dev/null", "echo two"]}]]
-    seqs += [gen_sequence(rng, i) for i in range(n)]
+             {"k": "I", "typed": ["echo one >/dev/null", "echo one >/dev/null", "echo two"]}],
+            [{"k": "I", "fast": True, "typed": ["true mark-%d" % i for i in range(1, 7)]}],
+            [{"k": "I", "fast": True, "typed": ["true a", "true b", "true c"]}, {"k": "A", "line": "true added", "now": True},
+             {"k": "I", "fast": True, "typed": ["true d", "true e", "true a"]}]]
+    for i in range(n):
+        q = gen_sequence(rng, i)
+        for p in q:
+            if p["k"] == "I" and i % 2 == 0:
+                p["fast"] = True
+        seqs.append(q)
     if ctx.replay_procs:
         seqs = [ctx.replay_procs]
     with ThreadPoolExecutor(max_workers=6) as ex:
@@ -635,11 +695,14 @@ def layer3(ctx, res, V, work):
     path = C.write_cases("c18_l3.txt", ["\t".join(["procs"] + [C.enc(US.join(["I"] + p["typed"]) if p["k"] == "I" else
                                                                      US.join(["A", p["line"]])) for p in procs]) for procs in seqs])
     mo = C.run_model(ctx.model["C18"], path)
-    for procs, (ok, g), m in zip(seqs, got, mo):
+    for procs, (ok, rows, lists), m in zip(seqs, got, mo):
+        g = [r[1] for r in rows]
         want = [C.dec(x) for x in m.split("\t")] if m else []
-        exp = []
-        for p in procs:
-            exp += ref_session(p["typed"]) if p["k"] == "I" else [p["line"].strip(WS)]
+        exp, src = [], []
+        for k, p in enumerate(procs):
+            e = ref_session(p["typed"]) if p["k"] == "I" else [p["line"].strip(WS)]
+            exp += e
+            src += [(p["k"], k)] * len(e)
         if want != exp:
             V.violate(kind="correspondence", failing_input=False, function="db_procs/session_run", procs=procs,
                       input=describe_procs(procs), model=want, expected=exp)
@@ -652,11 +715,43 @@ def layer3(ctx, res, V, work):
                       entry="shell processes sharing one database (HISTORY_DELETE_DUPS=0)",
                       note="rows in the database differ from: every submitted line once per submission, verbatim, except "
                            "leading-space lines and immediate repeats within one session")
-        else:
-            res.nontrivial("procs:" + "|".join(describe_procs(procs)))
+            continue
+        res.nontrivial("procs:" + "|".join(describe_procs(procs)))
+        # ---- submission order as later processes see it.  tsb of typed lines comes from the shell's clock.
+        tsb = [r[3] for r in rows]
+        bad_clock = [i for i in range(len(rows) - 1) if src[i][0] == "I" and src[i + 1][0] == "I" and not tsb[i] < tsb[i + 1]]
+        if bad_clock:
+            i = bad_clock[0]
+            V.violate(kind="oracle", failing_input=True, procs=procs, input=describe_procs(procs),
+                      observed={"rows (rowid, inp, tsb)": [(r[0], r[1], r[3]) for r in rows],
+                                "listing `history -n -l 100` in a later process": lists[0]},
+                      expected={"tsb": "strictly increasing in submission order", "listing": g},
+                      note="lines %r and %r were submitted one after the other but their recorded times do not increase "
+                           "(%r, %r): a listing by time cannot show them in submission order" % (g[i], g[i + 1], tsb[i], tsb[i + 1]))
+            continue
+        order = [r[1] for r in sorted(rows, key=lambda r: (r[3], r[0]))]     # by time, ties by submission
+        groups = {}
+        for r, sc in zip(rows, src):
+            groups.setdefault(r[3], []).append(sc[0])
+        ties_only_add = all(set(v) == {"A"} for v in groups.values() if len(v) > 1)
+        has_ties = any(len(v) > 1 for v in groups.values())
+        for (cmd, asc, lim), got_l in zip(LISTINGS, lists):
+            want_l = order[:lim] if asc else order[-lim:]
+            if got_l == want_l:
+                res.nontrivial("order:%s:%r" % (cmd, want_l))
+                continue
+            if has_ties and ties_only_add:
+                V.known_hit("list-tie-order", "%s; then `%s` in a later process -> %r, submission order is %r" % (
+                    "; ".join(describe_procs(procs)), cmd, got_l, want_l))
+            else:
+                V.violate(kind="oracle", failing_input=True, procs=procs, input=describe_procs(procs) + ["later process: cicada -c '%s'" % cmd],
+                          expected=want_l, observed=got_l, rows=[(r[0], r[1], r[3]) for r in rows],
+                          note="the listing in a later shell process does not show the recorded lines in submission order")
+            break
     res.count("L3_process_sequences", len(seqs))
     res.count("L3_processes", sum(len(s) for s in seqs))
-    res.sample({"layer": "L3", "procs": describe_procs(seqs[0]), "recorded": got[0][1]})
+    res.count("L3_listings_by_later_processes", len(seqs) * len(LISTINGS))
+    res.sample({"layer": "L3", "procs": describe_procs(seqs[1]), "recorded": [(r[1], r[3]) for r in got[1][1]], "listings": got[1][2]})
 
 
 def run(ctx, res):
